@@ -139,36 +139,10 @@ func (rt *scenRT) componentFn(i int) f1t.ScenarioFn {
 }
 
 func (rt *scenRT) body(t *f1t.T) {
-	g := rt.g
-	rec := &bodyRec{Idx: len(g.Bodies), Iter: t.Iteration, Handle: g.handleOf(t), FailedAtEntry: t.Failed()}
-	rec.Plan = rt.cfg.plan(rec.Idx)
-	rec.PlannedFail = behavFails(rec.Plan.Behav) && len(rt.cfg.Prog.Components) == 0
-	g.Bodies = append(g.Bodies, rec)
-	if g.live == nil {
-		g.live = map[*f1t.T]*bodyRec{}
-	}
-	if other := g.live[t]; other != nil {
-		g.DoubleHandle = append(g.DoubleHandle, "handle entered twice without exit: iterations "+other.Iter+" and "+rec.Iter)
-	}
-	g.live[t] = rec
-	g.Inflight++
-	rec.InflightAtIn = g.Inflight
-	if g.Inflight > g.HWM {
-		g.HWM = g.Inflight
-	}
-	if g.DoReturned {
-		g.BodiesBegunAfterReturn++
-	}
-	rec.BeginNs, rec.BeginSeq = rt.env.Sim.Now(), rt.env.Sim.Step()
-	rt.env.Log("body-begin", int64(rec.Idx), int64(rec.Handle), rec.Iter)
+	rec := rt.begin(t)
 	start := time.Now()
 	defer func() {
-		rec.ElapsedNs = int64(time.Since(start))
-		rec.Ended = true
-		rec.EndNs, rec.EndSeq = rt.env.Sim.Now(), rt.env.Sim.Step()
-		g.Inflight--
-		delete(g.live, t)
-		rt.env.Log("body-end", int64(rec.Idx), int64(rec.Handle), rec.Iter)
+		rt.end(t, rec, int64(time.Since(start)))
 	}()
 	plan := rec.Plan
 	if !plan.CleanupsLate {
